@@ -12,6 +12,7 @@ import cbor2
 import importlib.util
 import sys
 import os
+from collections.abc import Mapping
 from pathlib import Path
 from suit_generator.suit_sign_script_base import (
     SuitEnvelopeSignerBase,
@@ -65,7 +66,8 @@ class RecursiveSigner:
         context: str = None,
     ):
         """Initialize the RecursiveSigner."""
-        self.envelope = envelope
+        # cbor2 >= 6 decodes maps to immutable mappings - keep a mutable copy of the envelope content
+        self.envelope = cbor2.CBORTag(envelope.tag, dict(envelope.value))
         self.envelope_name = envelope_name
         self.sign_script = sign_script
         self.kms_script = kms_script
@@ -265,6 +267,9 @@ def load_envelope(input_file: Path) -> cbor2.CBORTag:
     """Load suit envelope."""
     with open(input_file, "rb") as fh:
         envelope = cbor2.load(fh)
+    if isinstance(envelope, cbor2.CBORTag) and isinstance(envelope.value, Mapping):
+        # cbor2 >= 6 decodes maps to immutable mappings - sign scripts modify the envelope content in place
+        envelope = cbor2.CBORTag(envelope.tag, dict(envelope.value))
     return envelope
 
 
